@@ -98,3 +98,34 @@ def describe(stage, clause): return CLAUSES.get(clause, 'clause %d' % clause)
 def matches_known(k, case, verdict): return False
 TRUSTED = TRUSTED_BASE + ['Bevy 0.15 observer dispatch and command flushing (modelled operationally, validated by the traces)']
 ASSUMES = ['inputs are keys (values true/false, or scaled to a tiny magnitude), so the cancellation corner of C04 cannot occur', 'scripted conditions wrap nothing: the law is judged from the logged (kind, result) pairs']
+
+
+def blocked_value_cases(tier, rng):
+    """\"events are suppressed, with state and value still updated and visible\": an events-only blocker that fails over
+    several consecutive frames while the state stays the same and the VALUE changes (a second key joins or leaves)"""
+    for _ in range(40 if tier == 'thorough' else 12):
+        ids = Ids()
+        L = rng.randint(6, 10)
+        level = rng.choice(['action', 'input'])
+        blk = lambda: c_script('(KBlocker true)', ['SFired'] + [rng.choice(['SNone', 'SNone', 'SFired']) for _ in range(L)])
+        am = idlist(ids, [PROBE])
+        ac = idlist(ids, [c_script('KExplicit', ['SFired'] * (L + 1))] + ([blk()] if level == 'action' else []))
+        binds = [bind(ids, key(0), [PROBE], [blk()] if level == 'input' else []),
+                 bind(ids, key(1), ['(m_scale 2/1 2/1 2/1)', PROBE], [blk()] if level == 'input' else [])]
+        act = '(mkAction %d %s %s %s)' % (aid(rng.choice([1, 2, 3]), 2, False, False), am, ac, lst(binds))
+        steps = [sop(spawn(0, [0])), frame(raw())]
+        cur = set()
+        for _ in range(L):
+            for k in (0, 1):
+                if rng.random() < .45: cur ^= {k}
+            steps.append(frame(raw(keys=sorted(cur))))
+        yield (scenario([0], [0], {(0, 0): spec([act])}, steps), 'value-under-events-only-blocker')
+
+STAGES.append(dict(name='values', mode='app', coq='Check.C04c', profile=('Proofs.JudgeC04P', 'JudgeC04P.profile_C04b', 'C04_app_judgement_sound / C04_app_judgement_transfer (the stage is judged by Check.C04c)'),
+                   cases=blocked_value_cases, nontrivial=nontrivial, shard=8, exhaustive={'thorough': False, 'quick': False},
+                   rule='a numeric action with two keys (one scaled by 2) under an events-only blocker (action level or on both inputs) that fails over consecutive frames while keys join and leave: the polled value follows the merged value in every frame, blocked or not'))
+_describe3 = describe
+def describe(stage, clause):
+    if stage == 'values':
+        return {2: 'the polled value is not the merged value of the frame (it went stale while events were withheld)', 1: 'a contributing value was not merged as documented'}.get(clause, 'clause %d' % clause)
+    return _describe3(stage, clause)
